@@ -136,6 +136,21 @@ def dawson(prog, ctx):
     okodd = small is not None and is_zero(small + small.subs(x, -x))
     series = x - 2 * x ** 3 / 3 + 4 * x ** 5 / 15 - 8 * x ** 7 / 105
     okser = small is not None and is_zero(small - series)
+    # truncation bound at the switch point (alternating Maclaurin series: error <= first omitted term 16 t^9/945)
+    thr = None
+    if isinstance(cond, (sp.Lt, sp.Le)) and cond.lhs == sp.Abs(x) and cond.rhs.is_number:
+        thr = float(cond.rhs)
+    elif isinstance(cond, (sp.Gt, sp.Ge)) and cond.rhs == sp.Abs(x) and cond.lhs.is_number:
+        thr = float(cond.lhs)
+    if thr is None:
+        ctx.undecided('C17.e', 'Dawson:switch-point', fn, 'branch test is not |x| < constant: %s' % cond)
+    else:
+        rem = 16 * thr ** 9 / 945
+        rel = rem / (thr * (1 - 2 * thr ** 2 / 3))
+        ctx.decide('C17.e', 'Dawson:switch-point', fn, rem <= 2e-7 and rel <= 1e-6,
+                   'series is used for |x| < %g where its remainder bound 16 t^9/945 = %.2g <= 2e-7 (relative %.2g <= 1e-6 for Erfi)' % (thr, rem, rel),
+                   'series is used up to |x| = %g where its remainder bound 16 t^9/945 = %.3g exceeds the 2e-7 absolute (or %.3g the 1e-6 relative Erfi) accuracy'
+                   % (thr, rem, rel), witness={'x': thr, 'remainder_bound': rem})
     ctx.decide('C17.e', 'Dawson:series', fn, okser, 'small branch expands to x-2x^3/3+4x^5/15-8x^7/105',
                'small-argument polynomial is %s' % (sp.expand(small) if small is not None else None), form=str(small))
     # large branch: x only through fabs(x) and one Sign(.,x)
@@ -366,29 +381,34 @@ def vsh(prog, ctx):
             probs.append('expected three nested loops, found %d' % len(loops))
         else:
             from ..guards import CEval
-            want_sets = [{0, 1, 2}, {2, 4}, {0, 1, 2}]     # for l=3, m=1: i; l_hat in {l-1,l+1}; m_hat in {m-1,m,m+1}
-            for s_, want in zip(loops, want_sets):
-                d = s_['init']['decls'][0]
-                row = {'l': 3, 'm': 1}
-                try:
-                    v = CEval(prog, row).ev(d['init'])
-                    seen = set()
-                    for _ in range(12):
-                        row[d['name']] = v
-                        if not CEval(prog, row).ev(s_['cond']):
-                            break
-                        seen.add(v)
-                        inc = strip(s_['inc'])
-                        if inc['k'] == 'Un' and inc['op'] == '++':
-                            v += 1
-                        elif inc['k'] == 'Bin' and inc['op'] == '+=':
-                            v += CEval(prog, row).ev(inc['rhs'])
-                        else:
-                            raise Undecided('increment ' + show(inc))
-                    if seen != want:
-                        probs.append('loop over %s visits %s for (l,m)=(3,1), expected %s' % (d['name'], sorted(seen), sorted(want)))
-                except (Undecided, KeyError) as e:
-                    probs.append('loop over %s not evaluable: %s' % (d['name'], e))
+            uneval = []
+            for (lv, mv) in ((3, 1), (2, 2), (2, -2), (1, 0), (4, -4)):
+                want_sets = [{0, 1, 2}, {lv - 1, lv + 1}, {mv - 1, mv, mv + 1}]
+                for s_, want in zip(loops, want_sets):
+                    d = s_['init']['decls'][0]
+                    row = {'l': lv, 'm': mv}
+                    try:
+                        v = CEval(prog, row).ev(d['init'])
+                        seen = set()
+                        for _ in range(12):
+                            row[d['name']] = v
+                            if not CEval(prog, row).ev(s_['cond']):
+                                break
+                            seen.add(v)
+                            inc = strip(s_['inc'])
+                            if inc['k'] == 'Un' and inc['op'] == '++':
+                                v += 1
+                            elif inc['k'] == 'Bin' and inc['op'] == '+=':
+                                v += CEval(prog, row).ev(inc['rhs'])
+                            else:
+                                raise Undecided('increment ' + show(inc))
+                        if seen != want:
+                            probs.append('for (l,m)=(%d,%d) the loop over %s visits %s, expected %s' % (lv, mv, d['name'], sorted(seen), sorted(want)))
+                    except (Undecided, KeyError) as e:
+                        uneval.append('loop over %s not evaluable: %s' % (d['name'], e))
+            if uneval and not probs:
+                ctx.undecided(R, name, fn, '; '.join(sorted(set(uneval))))
+                continue
             ifs = [s for s in walk_stmts(fn.body) if s['k'] == 'If']
             okf = False
             if len(ifs) == 1:
